@@ -154,6 +154,16 @@ theorem outstanding_only_behind_a_waiting_hook (cap : Nat) (sc : Script) (ls : L
   · exact absurd h (hnohook.2.1 m k)
   · exact absurd h (hnohook.2.2 a b c)
 
+/-- the same in the scheduler's own terms: whenever the deterministic runtime of the correspondence has emptied its run
+    queue (`Exec.runnable s = []`, the condition under which a macro-step ends) and the actor is not inside a hook, every
+    operation has returned - this is what "settled" means for the traces the monitors read -/
+theorem settled_scheduler_all_returned (cap : Nat) (sc : Script) (ls : List Label) (s : Sys) (hcap : 0 < cap)
+    (hr : run? (init cap sc) ls = some s) (hq : Exec.runnable s = [])
+    (hnohook : s.pc ≠ .starting ∧ (∀ m k, s.pc ≠ .inHandler m k) ∧ ∀ a b c, s.pc ≠ .stopping a b c) (oid : Nat) :
+    s.client oid ≠ .waiting ∧ s.client oid ≠ .awaiting :=
+  outstanding_only_behind_a_waiting_hook cap sc ls s hcap hr
+    (runnable_nil_quiescent s (end_ids_run cap sc ls s hr).1 hq) hnohook oid
+
 -- non-vacuity: after a tell and an ask were served the actor is parked, nothing can run, both have returned
 example : ∃ s, run? (init 1 {})
     [.gate, .startDone, .pollTerm, .pollMail, .pollRun,
